@@ -4,7 +4,7 @@
    executable IEEE model; decode side: model/Convert.v.  The implementation (which picks copy / colour-convert /
    universal variants per input) is compared with this model byte for byte on all 35 pixel formats. *)
 From Coq Require Import ZArith List Bool Lia.
-From DDSV Require Import model.Float model.Convert model.Encode spec.SpecNum proofs.EncodeProofsA proofs.EncodeProofsB proofs.EncodeProofsC proofs.FloatMono proofs.QuantProofs proofs.QuantProofs16 proofs.QuantProofsSmall.
+From DDSV Require Import model.Float model.Convert model.Encode spec.SpecNum proofs.EncodeProofsA proofs.EncodeProofsB proofs.EncodeProofsC proofs.FloatMono proofs.FloatTotal proofs.QuantProofs proofs.QuantProofs16 proofs.QuantProofsSmall.
 Import ListNotations.
 Local Open Scope Z_scope.
 
@@ -43,6 +43,14 @@ Proof. exact n8_from_between. Qed.
 Theorem C12_f32_into_unorm16 : forall b k, 0 <= b < LIM -> 1 <= k <= 65535 ->
   (b < T16 k -> n16_from b <= k - 1) /\ (T16 k <= b -> k <= n16_from b) /\ Z.abs (T16 k - ideal_boundary 65535 k) <= 1.
 Proof. exact n16_from_spec. Qed.
+(* outside [0, 2^40): negative, -0, NaN -> 0; huge, +infinity -> maximum.  With the two theorems above every 32-bit pattern
+   is decided for the 8- and 16-bit UNORM fields *)
+Theorem C12_f32_into_unorm8_outside : forall b, 0 <= b < 2 ^ 32 ->
+  (2147483648 <= b -> n8_from b = 0) /\ (LIM <= b <= 2139095040 -> n8_from b = 255) /\ (2139095040 < b < 2147483648 -> n8_from b = 0).
+Proof. exact n8_from_outside. Qed.
+Theorem C12_f32_into_unorm16_outside : forall b, 0 <= b < 2 ^ 32 ->
+  (2147483648 <= b -> n16_from b = 0) /\ (LIM <= b <= 2139095040 -> n16_from b = 65535) /\ (2139095040 < b < 2147483648 -> n16_from b = 0).
+Proof. exact n16_from_outside. Qed.
 (* the narrow UNORM fields (2, 4, 5, 6, 10 bits): (x.min(1.0) * max + 0.5) as integer, same statement *)
 Theorem C12_f32_into_n2 : forall b k, 0 <= b < LIM -> 1 <= k <= 3 ->
   (b < Tf 3 255 k -> n2_from b <= k - 1) /\ (Tf 3 255 k <= b -> k <= n2_from b) /\ Z.abs (Tf 3 255 k - ideal_boundary 3 k) <= 1.
@@ -70,5 +78,5 @@ Example C12_ex : encode_px 6 (to_rgba_f32 3 0 [255; 128; 0; 255]) = [0; 252] /\ 
 Proof. split; vm_compute; reflexivity. Qed.
 
 Definition C12_all := (C12_roundtrip_u8, C12_roundtrip_u16, C12_quantise_u8, C12_quantise_u16, C12_f32_into_unorm8, C12_f32_into_unorm8_between, C12_f32_into_unorm16,
-  C12_f32_into_n2, C12_f32_into_n4, C12_f32_into_n5, C12_f32_into_n6, C12_f32_into_n10, C12_f32_into_s8, C12_s8_from_level).
+  C12_f32_into_n2, C12_f32_into_n4, C12_f32_into_n5, C12_f32_into_n6, C12_f32_into_n10, C12_f32_into_s8, C12_s8_from_level, C12_f32_into_unorm8_outside, C12_f32_into_unorm16_outside).
 Redirect "props/C12.assumptions" Print Assumptions C12_all.
